@@ -1,5 +1,6 @@
 import Drivers.SpaceWire
 import Model.Sampling
+import Model.Proposal
 
 /-!
 Driver for C10 (declaration → space conversion, samplers).  One JSON request per line.
@@ -23,6 +24,9 @@ Ops
   "cells"    kind:"flat"|"cs", lo, hi          → cells:[[c1,c2]…]       (flatCell / csCell for every value of lo..hi)
   "cs_int_log" lo, hi, us:[rat…], L, E         → vals:[int…]            (csIntLogSample, model of ConfigSpace)
   "point"    dims:[{"name","dim","prior"}…], conf:[[name,val]…] → res = {"err":kind} | {"row":[val…]}, mem
+  "handout"  on:bool, sampled:[[val…]…], asks:[{"cands":[[val…]…],"n":int|null}…] → out:[{"rows":[[val…]…]} | {"err":kind} …]
+             (Model/Proposal.lean `askMany`: the rows each initial-phase `Optimizer.ask` hands out, given the candidates drawn for it)
+  "geom"     qs:[rat…], T:rat, n:nat           → g:[rat…]               (`geom q T n` of C10_first_proposal_law)
 -/
 
 open Lean DH.Wire DH.Space
@@ -208,6 +212,25 @@ def handle (j : Json) : Except String Json := do
     let tE ← jPairs (fieldD j "E" (.arr #[]))
     let vals := us.map (csIntLogSample (tabL tL) (tabE tE) lo hi)
     return Json.mkObj [("ok", true), ("vals", .arr (vals.map (fun v => Json.num (JsonNumber.fromInt v))).toArray)]
+  | "handout" =>
+    let on ← jBool (← field j "on")
+    let sampled ← jList (jList jVal) (fieldD j "sampled" (.arr #[]))
+    let asks ← jList (fun a => do
+      let n ← match fieldD a "n" .null with
+        | .null => pure none
+        | x => do pure (some (← jNat x))
+      return (← jList (jList jVal) (← field a "cands"), n)) (← field j "asks")
+    let out := DH.Proposal.askMany on sampled asks
+    let ofRows (rows : List (List Val)) : Json := .arr (rows.map (fun r => Json.arr (r.map ofVal).toArray)).toArray
+    return Json.mkObj [("ok", true), ("out", .arr (out.map (fun r => match r with
+      | .ok rows => Json.mkObj [("rows", ofRows rows)]
+      | .error .indexError => Json.mkObj [("err", "IndexError")]
+      | .error .valueError => Json.mkObj [("err", "ValueError")])).toArray)]
+  | "geom" =>
+    let qs ← jList jRat (← field j "qs")
+    let T ← jRat (← field j "T")
+    let n ← jNat (← field j "n")
+    return Json.mkObj [("ok", true), ("g", ofRats (qs.map (fun q => DH.Proposal.geom q T n)))]
   | _ => throw s!"unknown op {op}"
 
 def main : IO Unit := serveFn handle
